@@ -148,6 +148,10 @@ class AsyncProxy(BaseProxy):
             return ents
         if func == "setup_done":
             ctx.record({"k": "SETUP", "s": self.sid})
+            plan = getattr(ctx.behaviour, "plan", None)
+            if plan and plan["sid"] == self.sid and plan["req"] == "setup_done" and plan["kind"] == "raise":
+                ctx.record({"k": "FAULT", "s": self.sid, "kind": "raise", "req": "setup_done"})
+                raise RuntimeError(f"injected failure in {self.sid}.setup_done")
             return None
         if func in ("step", "get_data"):
             loop = asyncio.get_running_loop()
